@@ -11,6 +11,7 @@ import (
 	"testing"
 	"time"
 
+	"github.com/lavanet/lava/v5/protocol/chainlib"
 	"github.com/lavanet/lava/v5/protocol/common"
 	"github.com/lavanet/lava/v5/protocol/lavaprotocol"
 	"github.com/lavanet/lava/v5/protocol/lavasession"
@@ -55,6 +56,12 @@ type smConfig struct {
 	RelayTimeoutMs    int    `json:"relay_timeout_ms"`      // 0 = no ticker
 	ProcessingMs      int    `json:"processing_timeout_ms"` // 0 = far away
 	ViaConsumer       bool   `json:"via_consumer,omitempty"`
+	// NoticeDelayMs (demonstration only, never generated): the results checker takes this long to
+	// report "required results are there" - a legal schedule in which the goroutine that reads the
+	// results is slow while the ticker keeps firing.
+	NoticeDelayMs int `json:"notice_delay_ms,omitempty"`
+	// AnswerDelayUs (demonstration only): provider latency before an immediate answer is delivered.
+	AnswerDelayUs int `json:"answer_delay_us,omitempty"`
 }
 
 const (
@@ -123,7 +130,8 @@ type recPolicy struct {
 	inner   *relaypolicy.Policy
 	log     *eventLog
 	used    *lavasession.UsedProviders
-	handled *atomic.Int64
+	handled *atomic.Int64 // instructions the consumer has finished sending (ok or failed)
+	reports int           // send reports (UpdateBatch) the machine has processed; under log.mu
 }
 
 func (p *recPolicy) Decide(in relaycore.DecisionInput) relaycore.DecisionOutput {
@@ -134,7 +142,10 @@ func (p *recPolicy) Decide(in relaycore.DecisionInput) relaycore.DecisionOutput 
 	// clean: every instruction emitted so far has been fully handled by the consumer and the
 	// attempt number given to the policy is the current batch number, i.e. the decision was
 	// not taken while an earlier instruction was still on its way.
-	clean := handled >= p.log.emitted && batchNow == in.AttemptNumber
+	// Every handled instruction is reported through UpdateBatch, so "reports processed ==
+	// instructions handled" also means no send-failure report is still queued (a queued failure
+	// report re-sends on its own, independently of this decision).
+	clean := handled >= p.log.emitted && batchNow == in.AttemptNumber && p.reports >= handled
 	p.log.evs = append(p.log.evs, logEv{Kind: eDecide, Flag: out.Action == relaycore.ActionRetry, B: in.AttemptNumber, Flag2: in.IsTickerHedge, Clean: clean, S: out.Reason, In: in})
 	if out.Action == relaycore.ActionRetry {
 		p.log.emitted++
@@ -147,6 +158,7 @@ func (p *recPolicy) OnSendRelayResult(err error, isPairingListEmpty bool) relayc
 	res := p.inner.OnSendRelayResult(err, isPairingListEmpty)
 	p.log.mu.Lock()
 	p.log.evs = append(p.log.evs, logEv{Kind: eSendRes, A: int(res), Flag: err == nil})
+	p.reports++
 	if res == relaycore.SendRetry {
 		p.log.emitted++
 	}
@@ -160,6 +172,7 @@ func (p *recPolicy) GetConsecutiveBatchErrors() int { return p.inner.GetConsecut
 type recChecker struct {
 	inner   *relaycore.RelayProcessor
 	log     *eventLog
+	delay   time.Duration
 	ctxOnce sync.Once
 	ctxCh   chan context.Context
 }
@@ -174,6 +187,9 @@ func (c *recChecker) WaitForResults(ctx context.Context) error {
 
 func (c *recChecker) HasRequiredNodeResults(tries int) (bool, int) {
 	met, n := c.inner.HasRequiredNodeResults(tries)
+	if met && c.delay > 0 {
+		time.Sleep(c.delay)
+	}
 	c.log.add(logEv{Kind: eNoticed, Flag: met})
 	return met, n
 }
@@ -332,13 +348,15 @@ func runC34(c *c34Case, excludeHedge bool) (res c34Result) {
 		res.Inconclusive = "fixture: state machine: " + err.Error()
 		return
 	}
-	wantSel := map[string]relaycore.Selection{"stateless": relaycore.Stateless, "stateful": relaycore.Stateful, "cv": relaycore.CrossValidation}[cfg.Mode]
-	if sm.GetSelection() != wantSel {
-		res.Inconclusive = fmt.Sprintf("fixture: request gives selection %d, wanted %d", sm.GetSelection(), wantSel)
+	// the mode is a property of the request (spec category / directive headers), not of what the
+	// machine makes of it
+	isStatefulAPI := chainlib.GetStateful(pm) == common.CONSISTENCY_SELECT_ALL_PROVIDERS
+	if isStatefulAPI != (cfg.Mode == "stateful") {
+		res.Inconclusive = fmt.Sprintf("fixture: request stateful=%v but mode %s", isStatefulAPI, cfg.Mode)
 		return
 	}
 	rp := relaycore.NewRelayProcessor(root, sm.GetCrossValidationParams(), nil, metricsMock{}, metricsMock{}, c34Retries, sm)
-	checker := &recChecker{inner: rp, log: log, ctxCh: make(chan context.Context, 1)}
+	checker := &recChecker{inner: rp, log: log, ctxCh: make(chan context.Context, 1), delay: time.Duration(cfg.NoticeDelayMs) * time.Millisecond}
 	sm.SetResultsChecker(checker)
 
 	ch, err := sm.GetRelayTaskChannel()
@@ -493,10 +511,13 @@ func runC34(c *c34Case, excludeHedge bool) (res c34Result) {
 			if j < len(st.Results) {
 				spec = st.Results[j]
 			}
-			if !ticker {
-				spec.Hold = 0
+			if !ticker && cfg.ProcessingMs == 0 {
+				spec.Hold = 0 // nothing would ever wake the machine up
 			}
 			p := pendingResp{provider: names[j], spec: spec, hold: spec.Hold}
+			if p.hold == 0 && cfg.AnswerDelayUs > 0 {
+				time.Sleep(time.Duration(cfg.AnswerDelayUs) * time.Microsecond)
+			}
 			if p.hold == 0 {
 				deliver(p)
 			} else {
@@ -707,44 +728,47 @@ loop:
 				}
 			}
 		}
-		// O2 (log): once the successful result is stored, no decision asks for another attempt
-		if at := idxConsumed(successAt); at >= 0 {
+		// O2: a retry decision whose own input (the summary the machine read for this very
+		// decision) already shows the successful result. This is the "observed" criterion: a tick
+		// that is handled before the result is stored sees SuccessCount 0 and is not counted.
+		if cfg.Mode == "stateless" && c34EnforceD5 {
 			late := 0
-			for i, e := range evs {
-				if e.Kind == eDecide && e.Flag && decisionStart(i) > at {
+			for _, e := range evs {
+				if e.Kind == eDecide && e.Flag && e.In.Summary.SuccessCount >= 1 {
 					late++
 					if !excludeHedge {
-						clause("no-new-attempt-after-successful-result")
-						res.Violation = fmt.Sprintf("a new attempt was decided (reason %q, attempt %d, ticker=%v) after the successful result had been stored; %s", e.S, e.B, e.Flag2, where())
+						clause("no-new-attempt-after-observed-successful-result")
+						res.Violation = fmt.Sprintf("a new attempt was decided (reason %q, attempt %d, ticker=%v) although the results summary read for this decision already showed %d successful result(s); %s", e.S, e.B, e.Flag2, e.In.Summary.SuccessCount, where())
 						return
 					}
 				}
 			}
-			if excludeHedge {
-				clause("no-new-attempt-after-successful-result(bounded)")
-				if late > 0 {
-					res.Classes = append(res.Classes, "excluded:"+findingHedgeAfterSuccess)
+			if late > 0 {
+				res.Classes = append(res.Classes, "excluded:"+findingHedgeAfterSuccess)
+			}
+		}
+		// independent of the finding: once the machine has been TOLD that the required results are
+		// there (gotResults), a tick can be picked by the select a few times at most
+		if successAt >= 0 {
+			clause("bounded-attempts-after-success-was-reported")
+			noticed := -1
+			for i, e := range evs {
+				if e.Kind == eNoticed && e.Flag {
+					noticed = i
+					break
 				}
-				// known finding: a tick may overtake the stored success; it cannot do so more
-				// than a few times before the machine handles the success
-				noticed := -1
+			}
+			if noticed >= 0 {
+				n := 0
 				for i, e := range evs {
-					if e.Kind == eNoticed && e.Flag {
-						noticed = i
-						break
+					if e.Kind == eDecide && e.Flag && i > noticed {
+						n++
 					}
 				}
-				if noticed >= 0 {
-					n := 0
-					for i, e := range evs {
-						if e.Kind == eDecide && e.Flag && i > noticed {
-							n++
-						}
-					}
-					if n > 3 {
-						res.Violation = fmt.Sprintf("%d new attempts were decided after the machine had been told that the required results are there; %s", n, where())
-						return
-					}
+				if n > 3 {
+					// not a verdict: on a loaded machine the goroutine that reports the success can
+					// be descheduled for several tick periods
+					res.Classes = append(res.Classes, "several-ticks-overtook-reported-success")
 				}
 			}
 		}
@@ -956,8 +980,13 @@ func genC34Case(t *rapid.T, label string) *c34Case {
 	switch family {
 	case "tick":
 		cfg.RelayTimeoutMs = rapid.SampledFrom([]int{10, 15, 20, 30}).Draw(t, label+"relayTimeoutMs")
-		if rapid.IntRange(0, 5).Draw(t, label+"shortProcessing") == 0 {
-			cfg.ProcessingMs = rapid.SampledFrom([]int{60, 100, 150}).Draw(t, label+"processingMs")
+		if rapid.IntRange(0, 3).Draw(t, label+"shortProcessing") == 0 {
+			cfg.ProcessingMs = rapid.SampledFrom([]int{40, 60, 100, 150}).Draw(t, label+"processingMs")
+		}
+	case "seq":
+		if rapid.IntRange(0, 7).Draw(t, label+"shortProcessing") == 0 {
+			// no ticker, but held-back answers let the machine run into its processing deadline
+			cfg.ProcessingMs = rapid.SampledFrom([]int{40, 60, 100}).Draw(t, label+"processingMs")
 		}
 	case "consumer":
 		cfg.ViaConsumer = true
@@ -981,7 +1010,7 @@ func genC34Case(t *rapid.T, label string) *c34Case {
 		nSteps = rapid.IntRange(cfg.MaxRetries, cfg.MaxRetries+4).Draw(t, label+"chainSteps")
 	}
 	holdGen := func(l string) int {
-		if cfg.RelayTimeoutMs == 0 {
+		if cfg.RelayTimeoutMs == 0 && cfg.ProcessingMs == 0 {
 			return 0
 		}
 		return rapid.SampledFrom([]int{0, 0, 1, 1, 2, 3}).Draw(t, l)
@@ -1065,17 +1094,23 @@ func propC34Machine(t *rapid.T) {
 		}(i)
 	}
 	wg.Wait()
-	for i, r := range results {
+	for _, r := range results {
 		for n, cnt := range r.Clauses {
 			col.ClauseN(n, cnt)
 		}
+	}
+	// violations first: a harness problem in one sub-case must not hide a violation in another
+	for _, r := range results {
 		if r.Violation != "" {
 			t.Fatalf("%s", ev.Violation("C34", "%s", r.Violation))
 		}
+	}
+	for i, r := range results {
 		if r.Inconclusive != "" {
 			col.Class("inconclusive-case")
 			col.AddExtra("inconclusive_cases", 1)
-			if strings.HasPrefix(r.Inconclusive, "fixture") || strings.HasPrefix(r.Inconclusive, "UpdateBatch") {
+			col.SetExtra("last_inconclusive", firstLine(r.Inconclusive))
+			if strings.HasPrefix(r.Inconclusive, "fixture") {
 				t.Fatalf("%s", ev.HarnessError("C34: %s", r.Inconclusive))
 			}
 			c34Inconclusive.Add(1)
@@ -1112,4 +1147,52 @@ func TestC34Machine(t *testing.T) {
 	if inc*10 > done+inc && inc > 5 {
 		t.Fatalf("%s", ev.HarnessError("C34: %d of %d machine cases were inconclusive (deadlines)", inc, done+inc))
 	}
+}
+
+// TestC34Demo_hedge_after_success_machine shows finding c34-hedge-after-success on the state
+// machine itself (not run by the driver; timing is generous but it is a demonstration, not the
+// witness): the successful result is stored, the goroutine that reports it is slow, the ticker
+// fires and the machine emits new attempts although the successful result is already there.
+func TestC34Demo_hedge_after_success_machine(t *testing.T) {
+	c := &c34Case{
+		Cfg:   smConfig{Mode: "stateless", MaxRetries: 10, SendRelayAttempts: 3, RelayRetryLimit: 2, RelayTimeoutMs: 10, NoticeDelayMs: 45},
+		Steps: []scriptStep{{Results: []resultSpec{{Kind: rSuccess}}}},
+	}
+	r := runC34(c, false)
+	t.Logf("violation=%q inconclusive=%q classes=%v", r.Violation, r.Inconclusive, r.Classes)
+	if r.Violation == "" {
+		t.Skip("the schedule did not produce the hedge this time")
+	}
+	if !strings.Contains(r.Violation, "already showed") {
+		t.Fatalf("unexpected violation: %s", r.Violation)
+	}
+}
+
+// TestC34Demo_hedge_after_success_natural looks for the same schedule without any artificial
+// delay in the machine's collaborators: only the provider latency is swept around the tick time.
+// Not run by the driver.
+func TestC34Demo_hedge_after_success_natural(t *testing.T) {
+	var hits, runs atomic.Int64
+	var first atomic.Value
+	var wg sync.WaitGroup
+	for w := 0; w < 8; w++ {
+		wg.Add(1)
+		go func(w int) {
+			defer wg.Done()
+			for i := 0; i < 250; i++ {
+				c := &c34Case{
+					Cfg:   smConfig{Mode: "stateless", MaxRetries: 10, SendRelayAttempts: 3, RelayRetryLimit: 2, RelayTimeoutMs: 10, AnswerDelayUs: 9000 + (i*8+w)%2000},
+					Steps: []scriptStep{{Results: []resultSpec{{Kind: rSuccess}}}},
+				}
+				r := runC34(c, false)
+				runs.Add(1)
+				if strings.Contains(r.Violation, "already showed") {
+					hits.Add(1)
+					first.CompareAndSwap(nil, r.Violation)
+				}
+			}
+		}(w)
+	}
+	wg.Wait()
+	t.Logf("runs=%d hits=%d first=%v", runs.Load(), hits.Load(), first.Load())
 }
